@@ -1116,6 +1116,8 @@ STATEMENTS = {
 	'span_holds_exactly_own_tokens': 'the lexer tokens whose recorded positions lie inside that span are exactly the tokens lo … hi−1 the tree consumed, no other token of the module (tokens ordered, non-empty, inside the text)',
 	'region_enumerated': "the driver's list behind op iregion enumerates exactly the characters of the region as defined",
 	'tokens_enumerated': "the driver's list behind op itoks enumerates exactly the tokens inside the span as defined",
+	'position_names_character': "the (line, column) computed for a character of the text is ≥ (1, 1), its line is one the renderer's __load_line can load, and column col of the loaded line holds that character (tab shown as blank): carets and characters are in register",
+	'tree_quotation': 'end to end: for the tree over tokens [lo, hi) of a text (tokens non-empty, inside the text) the report built from its recorded span is never empty and PointsAt the span (label = line of its first token, that line quoted, carets from its first column on) — the hypothesis "the line exists" of `quotation` is discharged',
 	'hull_nest': 'under the hull model (span = first..last consumed token, tokens ordered/non-overlapping) a child span lies inside the parent span',
 	'hull_siblings': 'under the hull model sibling spans are ordered and do not overlap',
 	'hull_chain_sub': 'token order is inherited by every subtree, so nesting/sibling order hold at every depth',
